@@ -295,7 +295,7 @@ def run(tier):
         return None
     writes = []      # (function qname, target parameter, sources, location)
     for g in funcs:
-        refs = {}
+        refs, vals = {}, {}
         for s_, n in g.stmts.items():
             if n["k"] == "DeclStmt":
                 for dd in n["decls"]:
@@ -303,6 +303,13 @@ def run(tier):
                         nm = pname(g, dd["init"])
                         if nm:
                             refs[dd["declId"]] = nm
+                    elif "init" in dd:
+                        # a copy of a named parameter: 'const auto active = state.getParameter<bool>("...")'
+                        ini = g.stmts.get(g.strip(dd["init"]))
+                        if ini is not None and ini["k"] == "CXXMemberCallExpr" and (ini.get("callee") or "").rsplit("::", 1)[-1] == "getParameter":
+                            nm = pname(g, g.strip(dd["init"]))
+                            if nm:
+                                vals[dd["declId"]] = nm
 
         def target(sid):
             n = g.stmts.get(g.strip(sid))
@@ -323,6 +330,8 @@ def run(tier):
                     src.add(nm or "<other>")
                 elif m["k"] == "DeclRefExpr" and m.get("declId") in refs:
                     src.add(refs[m["declId"]])
+                elif m["k"] == "DeclRefExpr" and m.get("declId") in vals:
+                    src.add(vals[m["declId"]])
                 elif m["k"] == "DeclRefExpr" and m.get("declKind") in ("Var", "ParmVar") and m.get("declId") not in refs \
                         and not (m.get("declType") or "").startswith("mtest::StudyCurrentState"):
                     src.add("<other>")
